@@ -292,6 +292,115 @@ theorem disable_leaves_other_codes (x : Inst) (insts : List Inst) (path : List S
     isErrorCodeEnabled (x :: insts) path dflt code = isErrorCodeEnabled insts path dflt code :=
   isErrorCodeEnabled_other x insts path dflt code h
 
+/-! ## Every combination of routes: the stack of layers -/
+
+/-- **enabled_stack_is_documented_precedence (full strength).** For every settings dict (however
+built), every stack of configuration files (main file, extended file, …; top-level entries and
+per-module overrides, any number, any order), every module path and every default: the value the
+sort-based lookup of `Options.is_error_code_enabled` finds is the documented precedence — command
+line, else per file in `extend_config` order the most specific applicable override (first of equals)
+else the top-level entry, else the built-in default. `CfgFile.wf` (override module paths are
+non-empty) is a scope predicate: `str.split` never returns an empty list. -/
+theorem enabled_stack_is_documented_precedence (s : List (String × Bool)) (files : List CfgFile)
+    (hwf : ∀ f ∈ files, f.wf = true) (path : List String) (dflt : String → Bool) (code : String) :
+    enabledStack s files path dflt code = specEnabled (lookupFirst s code) files path dflt code :=
+  enabledStack_spec s files hwf path dflt code
+
+/-- **cmdline_settings_value (full strength).** The settings dict `main()` builds says about a code
+what the flags say: `-d` beats `-e` beats `--enable-all` / `--disable-all`. -/
+theorem cmdline_settings_value (c : Cli) (allCodes : List String) (code : String) :
+    lookupFirst (c.settings allCodes) code = c.value allCodes code :=
+  settings_value c allCodes code
+
+/-- **cmdline_wins (full strength).** Whatever the command line says about a code is its
+enabled-ness — whatever the configuration files contain (well-formed or not) and *whatever the
+built-in default is*; in particular an entry equal to the default is not redundant. -/
+theorem cmdline_wins (c : Cli) (allCodes : List String) (files : List CfgFile) (path : List String)
+    (dflt : String → Bool) (code : String) (v : Bool) (h : c.value allCodes code = some v) :
+    enabledStack (c.settings allCodes) files path dflt code = v :=
+  cmd_front _ files path dflt code v (by rw [settings_value]; exact h)
+
+/-- **stack_projection (full strength).** Under any stack of layers the check produces exactly the
+spec's diagnostics for the documented enabled-ness: the counted first occurrences whose code the
+precedence switches on and that no ignore comment targets, then the end-of-file reports. -/
+theorem stack_projection (c : Cli) (allCodes : List String) (files : List CfgFile)
+    (hf : ∀ f ∈ files, f.wf = true) (path : List String) (dflt : String → Bool)
+    (lines : List Line) (raw : List Raw) (hwf : RawWF lines raw = true) (hast : RawAst raw = true) :
+    ∃ st, check (enabledStack (c.settings allCodes) files path dflt) lines raw = some st ∧
+      st.fails = specCheck (fun code => specEnabled (c.value allCodes code) files path dflt code) lines raw := by
+  have e : enabledStack (c.settings allCodes) files path dflt =
+      fun code => specEnabled (c.value allCodes code) files path dflt code := by
+    funext code
+    rw [enabledStack_spec _ files hf, settings_value]
+  rw [e]
+  exact check_eq_spec_aux _ lines raw hwf hast
+
+/-- **disable_on_any_stack_is_projection (full strength).** Adding `-d` for the codes of `S` to any
+command line, on top of any configuration stack and any defaults, removes exactly the failures
+carrying a code of `S` (visitor phase, as `disable_is_projection`). -/
+theorem disable_on_any_stack_is_projection (S : List String) (c : Cli) (allCodes : List String)
+    (files : List CfgFile) (path : List String) (dflt : String → Bool) (lines : List Line) (raw : List Raw)
+    (st : St) (h : run (enabledStack (c.settings allCodes) files path dflt) lines {} raw = some st) :
+    ∃ st2, run (enabledStack ({ c with disable := c.disable ++ S }.settings allCodes) files path dflt)
+        lines {} raw = some st2 ∧
+      st2.fails = st.fails.filter fun r => !codeIn S r := by
+  have e : enabledStack ({ c with disable := c.disable ++ S }.settings allCodes) files path dflt =
+      disable S (enabledStack (c.settings allCodes) files path dflt) := by
+    funext code
+    unfold disable
+    by_cases hS : S.contains code = true
+    · have hv : ({ c with disable := c.disable ++ S } : Cli).value allCodes code = some false := by
+        unfold Cli.value
+        have : (c.disable ++ S).contains code = true := by
+          rw [List.contains_iff_mem] at hS ⊢; exact List.mem_append_right _ hS
+        simp only [this, if_true]
+      rw [cmdline_wins _ allCodes files path dflt code false hv, hS]; simp
+    · simp only [Bool.not_eq_true] at hS
+      rw [hS, Bool.not_false, Bool.and_true]
+      have hv : ({ c with disable := c.disable ++ S } : Cli).value allCodes code = c.value allCodes code := by
+        unfold Cli.value
+        have : (c.disable ++ S).contains code = c.disable.contains code := by
+          rw [Bool.eq_iff_iff, List.contains_iff_mem, List.contains_iff_mem, List.mem_append]
+          rw [← List.contains_iff_mem (a := code) (as := S), hS]
+          simp
+        simp only [this]
+      unfold enabledStack stackInsts
+      rw [isErrorCodeEnabled_eq, isErrorCodeEnabled_eq, rel_append, rel_append]
+      have hs := settings_front code path (({ c with disable := c.disable ++ S } : Cli).settings allCodes)
+      have hs0 := settings_front code path (c.settings allCodes)
+      rw [settings_value, hv, ← settings_value] at hs
+      -- both command lines say the same about `code`, and only that enters the lookup
+      by_cases hE : rel code path (settingsInsts (c.settings allCodes)) = []
+      · have hE' : rel code path (settingsInsts (({ c with disable := c.disable ++ S } : Cli).settings allCodes)) = [] := by
+          rw [hE] at hs0
+          rw [← hs0] at hs
+          cases hr : rel code path (settingsInsts (({ c with disable := c.disable ++ S } : Cli).settings allCodes)) with
+          | nil => rfl
+          | cons a as =>
+            rw [hr] at hs
+            cases hm : minFirst (a :: as) with
+            | none => exact absurd (minFirst_eq_none hm) (by simp)
+            | some m => rw [hm] at hs; cases hs
+        rw [hE, hE']
+      · have hE' : rel code path (settingsInsts (({ c with disable := c.disable ++ S } : Cli).settings allCodes)) ≠ [] := by
+          intro e0
+          rw [e0] at hs
+          cases hm : minFirst (rel code path (settingsInsts (c.settings allCodes))) with
+          | none => exact hE (minFirst_eq_none hm)
+          | some m => rw [hm] at hs0; rw [← hs0] at hs; cases hs
+        have cmdle : ∀ (s : List (String × Bool)), ∀ x ∈ rel code path (settingsInsts s),
+            ∀ y ∈ rel code path (filesInsts 0 files), x.le y = true := by
+          intro s x hx y hy
+          have hx' := mem_rel hx
+          have hy' := filesInsts_props (mem_rel hy)
+          unfold settingsInsts at hx'
+          obtain ⟨a, _, rfl⟩ := List.mem_map.mp hx'
+          unfold Inst.le
+          simp [hy'.1]
+        rw [minFirst_append_left hE (cmdle _), minFirst_append_left hE' (cmdle _), hs, hs0]
+  rw [e]
+  exact disable_is_projection S _ lines raw st h
+
 /-! ## Non-vacuity: the hypotheses are met by non-trivial inputs -/
 
 def exLines : List Line :=
@@ -326,6 +435,21 @@ example : D11_splitlinesMismatch "x = y  # static analysis: ignore\r\nz = 1\rw =
 example : UniqueCover allOn
     ["y = 1  # static analysis: ignore[a]".toList, "# static analysis: ignore[b]".toList, "z = 2".toList]
     [{ node := .ast 0, code := some "a", pos := some (1, 0) }, { node := .ast 1, code := some "a", pos := some (3, 0) }] = true := by
+  decide
+-- a stack with every layer: `-d a` against config `a = true` and default off; an override of the extended
+-- file loses against the main file's top level; the most specific override wins inside a file
+def exFiles : List CfgFile :=
+  [{ top := [("a", true), ("b", false)],
+     overrides := [(["pkg"], [("c", false)]), (["pkg", "sub"], [("c", true)]), (["other"], [("b", true)])] },
+   { top := [("d", true)], overrides := [(["pkg", "sub", "m"], [("b", true)])] }]
+example : (∀ f ∈ exFiles, f.wf = true) := by decide
+example : ({ disable := ["a"] } : Cli).value ["a", "b", "c", "d"] "a" = some false ∧
+    enabledStack (({ disable := ["a"] } : Cli).settings ["a", "b", "c", "d"]) exFiles ["pkg", "sub", "m"] (fun _ => false) "a" = false ∧
+    enabledStack [] exFiles ["pkg", "sub", "m"] (fun _ => false) "a" = true ∧
+    enabledStack [] exFiles ["pkg", "sub", "m"] (fun _ => true) "b" = false ∧
+    enabledStack [] exFiles ["pkg", "sub", "m"] (fun _ => false) "c" = true ∧
+    enabledStack [] exFiles ["pkg", "sub", "m"] (fun _ => false) "d" = true ∧
+    enabledStack (({ disableAll := true, enable := ["e"] } : Cli).settings ["d", "e"]) exFiles ["pkg"] (fun _ => true) "d" = false := by
   decide
 -- the hypothesis of `disable_is_projection_check_partial` in its three forms
 example : (!allOn "unused_ignore" || ["unused_ignore"].contains "unused_ignore" || NoIgnore wrapLines) = true := by decide
